@@ -1001,7 +1001,14 @@ def sym_bytes(x=b"", *a):
 def _conv_bytearray(x=b"", *a):
     if isinstance(x, (SInt, SBytes, SByteArray)):
         return SByteArray(x)
+    if SYM_BYTEARRAYS and not E.concrete and not a:
+        # code that later stores symbolic bytes into it needs the proxy
+        return SByteArray(builtins.bytes(x) if not isinstance(x, int)
+                          else builtins.bytes(x))
     return builtins.bytearray(x, *a)
+
+
+SYM_BYTEARRAYS = False
 
 
 def _shadow_type(name, conv, real):
@@ -1059,6 +1066,18 @@ SHADOW_BUILTINS.update(
     len=sym_len, isinstance=sym_isinstance, max=_mm("max"), min=_mm("min"),
     int=sym_int, bool=sym_bool, bytes=sym_bytes_t, bytearray=sym_bytearray,
     range=sym_range, abs=sym_abs, divmod=sym_divmod)
+
+
+class _LoggingShim:
+    """logging calls format their arguments (forcing symbolic values to
+    concrete ones): they get empty bodies"""
+
+    def __getattr__(self, n):
+        if n in ("debug", "info", "warning", "warn", "error", "exception",
+                 "critical", "log"):
+            return lambda *a, **k: None
+        import logging
+        return getattr(logging, n)
 
 
 class _OperatorShim:
@@ -1137,6 +1156,8 @@ def _patch(mod):
         d["struct"] = StructShim
     if isinstance(d.get("operator"), types.ModuleType):
         d["operator"] = _OperatorShim()
+    if isinstance(d.get("logging"), types.ModuleType):
+        d["logging"] = _LoggingShim()      # formatting is never the subject
 
 
 _finder = None
